@@ -3,6 +3,7 @@ import EaselModel.Getopts.Model
 import EaselModel.Getopts.WfCheck
 import EaselModel.Getopts.Alloc
 import EaselModel.Getopts.Help
+import EaselModel.Getopts.Round
 /-! Line-protocol driver for the C14 model (same ops as harness/h_getopts.c). -/
 open EaselModel EaselModel.Proto EaselModel.Getopts
 
@@ -88,6 +89,9 @@ def step (s : S) (line : String) : S × String :=
       let h : Option Str := if (arg? ws "help").isSome then field ws "help" else some "help".toList
       ({ s with table := s.table ++ [o], helps := s.helps ++ [(h, (argNat? ws "grp").getD 0)] }, "ok")
     | _, _ => (s, "bad-op")
+  | "atof" :: _ =>
+    let v := (field ws "s").getD []
+    (s, "isreal=" ++ b01 (isReal v) ++ " bits=" ++ hex16 (atofBits v))
   | "create" :: _ =>
     if s.g.isSome || s.table.isEmpty then (s, "bad-op") else
     match createC s.table with
